@@ -207,6 +207,20 @@ func (h c13impl) Stream(md protoreflect.MethodDescriptor, ss grpc.ServerStream) 
 	switch md.Name() {
 	case "Bidi", "CS":
 		var kept []proto.Message
+		if md.Name() == "Bidi" {
+			first := vschema.NewMsg(md.Input())
+			err := ss.RecvMsg(first)
+			if err == io.EOF {
+				return nil
+			}
+			if err != nil {
+				return err
+			}
+			if id, _, _ := chunkFields(first); strings.HasPrefix(id, "dup-") {
+				return h.duplex(md, ss, first)
+			}
+			kept = append(kept, first)
+		}
 		for {
 			in := vschema.NewMsg(md.Input())
 			err := ss.RecvMsg(in)
@@ -339,6 +353,52 @@ func (h c13impl) Stream(md protoreflect.MethodDescriptor, ss grpc.ServerStream) 
 		return nil
 	}
 	return status.Error(codes.Unimplemented, "n/a")
+}
+
+// duplex is the chat-style bidi handler: a receiver goroutine and a sender
+// loop, so that RecvMsg and SendMsg of one stream overlap in time.
+func (h c13impl) duplex(md protoreflect.MethodDescriptor, ss grpc.ServerStream, first proto.Message) error {
+	ch := make(chan proto.Message, 64)
+	errc := make(chan error, 1)
+	go func() {
+		defer close(ch)
+		for {
+			in := vschema.NewMsg(md.Input())
+			err := ss.RecvMsg(in)
+			if err == io.EOF {
+				return
+			}
+			if err != nil {
+				errc <- err
+				return
+			}
+			ch <- in
+		}
+	}()
+	send := func(m proto.Message) error {
+		id, seq, data := chunkFields(m)
+		if !chunkOK(id, seq, data) {
+			h.bad("stream-duplex", fmt.Sprintf("received chunk %s/%d does not carry its own payload", id, seq), id)
+		}
+		yield()
+		return ss.SendMsg(m)
+	}
+	if err := send(first); err != nil {
+		return err
+	}
+	for m := range ch {
+		if err := send(m); err != nil {
+			for range ch { // let the receiver finish
+			}
+			return err
+		}
+	}
+	select {
+	case err := <-errc:
+		return err
+	default:
+		return nil
+	}
 }
 
 func nameOf(m proto.Message) string {
@@ -521,6 +581,30 @@ var lanes = []lane{
 			data = d
 		}
 		return checkEchoProto(data, id, 2, size)
+	}},
+	{"grpc/gzip-fails-late", func(e *c13env, id string, size int, lr *rand.Rand) string {
+		// a compressed message whose decompression fails only after it has
+		// produced (most of) its output: damaged gzip trailer, or a stream
+		// cut short. The call must fail; what matters here is what the
+		// failed call leaves behind for the other compressed calls.
+		b, _ := proto.Marshal(mkChunk(id, 3, prf(id+"/3", size)))
+		z := wire.Gzip(b)
+		switch lr.Intn(3) {
+		case 0:
+			z[len(z)-5] ^= 0x5a // CRC32 / ISIZE trailer
+		case 1:
+			z = z[:len(z)-3-lr.Intn(5)]
+		default:
+			z = append(z[:len(z)-8:len(z)-8], 1, 2, 3, 4, 5, 6, 7, 8)
+		}
+		resp, bad := serveChecked(e, wire.GRPCRequest(e.std.Full("Echo"), http.Header{"Grpc-Encoding": {"gzip"}}, slowBody(wire.Frame(z, true), lr)))
+		if bad != "" {
+			return bad
+		}
+		if c, msg, _, ok := resp.GRPCStatus(); ok && c == 0 {
+			return fmt.Sprintf("a message whose gzip stream is damaged was accepted (status OK %q)", msg)
+		}
+		return ""
 	}},
 	{"grpc-web", func(e *c13env, id string, size int, lr *rand.Rand) string {
 		b, _ := proto.Marshal(mkChunk(id, 4, prf(id+"/4", size)))
@@ -790,7 +874,84 @@ func bidiOver(cc *grpc.ClientConn, full string, id string, size int, lr *rand.Ra
 	return ""
 }
 
+// duplexOver drives a full-duplex bidi call: a sender goroutine keeps sending
+// while the replies are read, against a handler that echoes each message as
+// soon as it arrives (c13impl.duplex).
+func duplexOver(cc *grpc.ClientConn, full string, id string, size int, lr *rand.Rand, gz bool) string {
+	id = "dup-" + id
+	ctx, cancel := context.WithTimeout(context.Background(), 30*time.Second)
+	defer cancel()
+	var opts []grpc.CallOption
+	if gz {
+		opts = append(opts, grpc.UseCompressor("gzip"))
+	}
+	st, err := cc.NewStream(ctx, &grpc.StreamDesc{ClientStreams: true, ServerStreams: true}, full, opts...)
+	if err != nil {
+		return "grpc-go error: " + err.Error()
+	}
+	k := 6 + lr.Intn(12)
+	if size > 200000 {
+		size = 200000
+	}
+	// sizes vary per message, so that a shared scratch buffer is regrown
+	// and overwritten with different lengths
+	szOf := func(i int) int {
+		switch i % 3 {
+		case 0:
+			return size / k
+		case 1:
+			return 5 + i
+		}
+		return size/k/2 + 1
+	}
+	sendErr := make(chan error, 1)
+	go func() {
+		for i := 0; i < k; i++ {
+			if err := st.SendMsg(mkChunk(id, int32(i), prf(fmt.Sprintf("%s/%d", id, i), szOf(i)))); err != nil {
+				sendErr <- err
+				return
+			}
+		}
+		sendErr <- st.CloseSend()
+	}()
+	for i := 0; i < k; i++ {
+		out := vschema.NewMsg(vschema.Msg("vf.Chunk"))
+		if err := st.RecvMsg(out); err != nil {
+			if ctx.Err() != nil {
+				return "WEDGED"
+			}
+			return fmt.Sprintf("grpc-go recv %d/%d: %v", i, k, err)
+		}
+		gid, gseq, gdata := chunkFields(out)
+		if gid != id || int(gseq) != i || !bytes.Equal(gdata, prf(fmt.Sprintf("%s/%d", id, i), szOf(i))) {
+			return fmt.Sprintf("duplex echo %d is not a function of the request: got id=%s seq=%d len=%d", i, gid, gseq, len(gdata))
+		}
+	}
+	if err := st.RecvMsg(vschema.NewMsg(vschema.Msg("vf.Chunk"))); err != io.EOF {
+		if ctx.Err() != nil {
+			return "WEDGED"
+		}
+		return fmt.Sprintf("stream did not end cleanly: %v", err)
+	}
+	if err := <-sendErr; err != nil {
+		return "grpc-go send error: " + err.Error()
+	}
+	return ""
+}
+
 var proxyLanes = []lane{
+	{"proxy/grpc-bidi-duplex", func(e *c13env, id string, size int, lr *rand.Rand) string {
+		return duplexOver(e.pcc, e.pstd.Full("Bidi"), id, size, lr, false)
+	}},
+	{"proxy/grpc-bidi-duplex-gzip", func(e *c13env, id string, size int, lr *rand.Rand) string {
+		return duplexOver(e.pcc, e.pstd.Full("Bidi"), id, size, lr, true)
+	}},
+	{"socket/grpc-bidi-duplex", func(e *c13env, id string, size int, lr *rand.Rand) string {
+		return duplexOver(e.cc, e.std.Full("Bidi"), id, size, lr, false)
+	}},
+	{"socket/grpc-bidi-duplex-gzip", func(e *c13env, id string, size int, lr *rand.Rand) string {
+		return duplexOver(e.cc, e.std.Full("Bidi"), id, size, lr, true)
+	}},
 	{"proxy/grpc-unary", func(e *c13env, id string, size int, lr *rand.Rand) string {
 		ctx, cancel := context.WithTimeout(context.Background(), 30*time.Second)
 		defer cancel()
